@@ -3,6 +3,11 @@ Abstract specification of the ring buffer in overwrite mode (QB_RB_FLAG_OVERWRIT
 FIFO of `RingSpec.lean` whose writer, instead of refusing, drops the oldest chunks until the
 free-space rule admits the new one.  `Props/C11.lean` proves that every operation sequence on
 the byte-level model `Ring.Rb` opened with the overwrite flag produces the same outputs.
+
+The notification count (`sem`) of an overwrite ring only ever goes up on the writer's side: a
+dropped chunk's notification stays counted (so the count is an upper bound of the number of
+readable chunks, not the number itself), and -- since the repair of defect D31 -- the writer's
+free-space rule does not look at it.
 Core Lean only.
 -/
 import QbVerif.Model.RingSpec
@@ -10,25 +15,28 @@ import QbVerif.Model.RingSpec
 namespace QbVerif.RingSpec
 open QbVerif.Ring
 
-/-- the overwrite loop of `qb_rb_chunk_alloc` on the queue: while the free-space rule does not
-    admit `len` bytes, drop the oldest chunk and take its notification back; result: remaining
-    queue, semaphore value, and whether room was found (`false`: nothing left to drop) -/
-def owDrop (W len : Nat) : List (List Nat) → Option Nat → List (List Nat) × Option Nat × Bool
-  | [], sem => ([], sem, !decide (Fifo.free ⟨W, [], sem⟩ < len + MARGIN))
-  | c :: cs, sem =>
-    if Fifo.free ⟨W, c :: cs, sem⟩ < len + MARGIN then owDrop W len cs (sem.map (· - 1))
-    else (c :: cs, sem, true)
+/-- free bytes as the writer of an overwrite ring sees them (the notification count is ignored) -/
+def owFree (W : Nat) (q : List (List Nat)) : Nat := Fifo.free ⟨W, q, none⟩
 
-/-- one operation of the overwrite FIFO; everything but `write` is as in `Fifo.step` -/
+/-- the overwrite loop of `qb_rb_chunk_alloc` on the queue: while the free-space rule does not
+    admit `len` bytes, drop the oldest chunk; result: remaining queue and whether room was found
+    (`false`: nothing left to drop) -/
+def owDrop (W len : Nat) : List (List Nat) → List (List Nat) × Bool
+  | [] => ([], !decide (owFree W [] < len + MARGIN))
+  | c :: cs =>
+    if owFree W (c :: cs) < len + MARGIN then owDrop W len cs
+    else (c :: cs, true)
+
+/-- one operation of the overwrite FIFO; the reader's operations are those of `Fifo.step` -/
 def Fifo.owStep (f : Fifo) : Op → Fifo × Out
   | .write d =>
-    match owDrop f.W d.length f.q f.sem with
-    | (q', sem', false) => ({ f with q := q', sem := sem' }, .err .einval)
-    | (q', sem', true) => (({ f with q := q' ++ [d], sem := sem' } : Fifo).post, .wrote d.length)
+    match owDrop f.W d.length f.q with
+    | (q', false) => ({ f with q := q' }, .err .einval)
+    | (q', true) => (({ f with q := q' ++ [d] } : Fifo).post, .wrote d.length)
   | .read cap => f.step (.read cap)
   | .peek => f.step .peek
   | .reclaim => f.step .reclaim
-  | .free => f.step .free
+  | .free => (f, .num (owFree f.W f.q))
 
 def Fifo.owRun (f : Fifo) : List Op → Fifo × List Out
   | [] => (f, [])
@@ -36,16 +44,6 @@ def Fifo.owRun (f : Fifo) : List Op → Fifo × List Out
     let (f1, o) := f.owStep op
     let (f2, os) := f1.owRun ops
     (f2, o :: os)
-
-/-- the notification count does not exceed the number of queued chunks -/
-def Fifo.SemOk (f : Fifo) : Prop := ∀ n, f.sem = some n → n ≤ f.q.length
-
-/-- documented use of the reader API: `reclaim` only directly after a `peek` -/
-def disciplined : List Op → Bool
-  | [] => true
-  | .reclaim :: _ => false
-  | .peek :: .reclaim :: rest => disciplined rest
-  | _ :: rest => disciplined rest
 
 /-! ### two-phase writes (`alloc n`, then `commit data` with `data.length ≤ n`) on the FIFO
 
@@ -63,13 +61,15 @@ def FifoP.step (ow : Bool) (s : FifoP) : POp → Option (FifoP × Out)
     if s.pend.isSome then none
     else if ow then some (⟨(s.f.owStep (.write d)).1, none⟩, (s.f.owStep (.write d)).2)
     else some (⟨(s.f.step (.write d)).1, none⟩, (s.f.step (.write d)).2)
-  | .base op => some (⟨(s.f.step op).1, s.pend⟩, (s.f.step op).2)
+  | .base op =>
+    if ow then some (⟨(s.f.owStep op).1, s.pend⟩, (s.f.owStep op).2)
+    else some (⟨(s.f.step op).1, s.pend⟩, (s.f.step op).2)
   | .alloc n =>
     if s.pend.isSome then none
     else if ow then
-      match owDrop s.f.W n s.f.q s.f.sem with
-      | (q', sem', false) => some (⟨{ s.f with q := q', sem := sem' }, none⟩, .err .einval)
-      | (q', sem', true) => some (⟨{ s.f with q := q', sem := sem' }, some n⟩, .unit)
+      match owDrop s.f.W n s.f.q with
+      | (q', false) => some (⟨{ s.f with q := q' }, none⟩, .err .einval)
+      | (q', true) => some (⟨{ s.f with q := q' }, some n⟩, .unit)
     else if s.f.free < n + MARGIN then some (⟨s.f, none⟩, .err .eagain)
     else some (⟨s.f, some n⟩, .unit)
   | .commit d =>
